@@ -17,4 +17,8 @@ CHECKS = {
    technique="exhaustive enumeration of generated Einstein-Toolkit directories (layout x decomposition x ghost x numbering x file order x restarts x levels x requests) against generator ground truth, exact equality",
    text="840 generated directories (quick): 4 layouts x all 27 tensor-product cuts {1,2,3}^3 even/uneven x ghost widths, chunk numberings x file enumeration orders, >27 chunks and Carpet-style recursive layouts, 1-3 restarts with overlapping iterations and two refinement levels x request menus; join_chunks additionally driven with every insertion order (<=4 chunks) / all rotations and reversals; name maps checked entry by entry.",
    note="Trusted base: refs/etgen.py (self-tested by an independent reassembly). Restarts use uniform aligned strides; recursive layouts may raise; hash-seed axis only in the thorough tier."),
+ "C12": dict(engine="E1-explorer", level="model_checking", design_ref="5 C12",
+   technique="explicit-state BFS over sequences of real read_data calls on a generated simulation (state = content of every per-iteration cache file); returned arrays and every cached dataset compared with generator ground truth after each transition",
+   text="All read sequences to depth 2 over a 23-operation alphabet (iteration subsets incl. unsorted, tensor vs component names, two levels, split on/off, explicit restart) and depth 3 over a 9-operation alphabet, for each of the four layouts, from an empty cache; thorough adds the 288-operation alphabet at depth 2 and depth 3 on the 23-operation one.",
+   note="Ground truth from refs/etgen.py; state abstraction = set of cached datasets with digests (iterations.txt/content.txt are functions of the directory). Bounded depth."),
 }
